@@ -1607,3 +1607,82 @@ func (g *Graph) establishingEdges(guard Guard) []Edge {
 	}
 	return out
 }
+
+// RegionEnds analyses one syntactic region (the body of a select or switch case,
+// of an if, ...) in isolation: nothing is known at its first block (no event has
+// happened, flags are unknown). For every edge that leaves the region it reports
+// whether the guard is established on all paths ending there. Returns from the
+// function inside the region are reported too (From is the returning block,
+// Break is true).
+func (g *Graph) RegionEnds(start *cfg.Block, region ast.Node, guard Guard) []IterationEnd {
+	if start == nil || region == nil {
+		return nil
+	}
+	ga := g.newGuardAnalysis(guard, true)
+	outside := func(b *cfg.Block) bool {
+		if len(b.Nodes) > 0 {
+			return !Encloses(region, b.Nodes[0])
+		}
+		if b.Stmt != nil {
+			return !Encloses(region, b.Stmt)
+		}
+		return false
+	}
+	in := map[*cfg.Block][]uint64{start: ga.full()}
+	work := []*cfg.Block{start}
+	type endKey struct {
+		b  *cfg.Block
+		br bool
+	}
+	ends := map[endKey][]uint64{}
+	addEnd := func(k endKey, t []uint64) {
+		if cur, ok := ends[k]; ok {
+			bsUnion(cur, t)
+		} else {
+			cp := make([]uint64, len(t))
+			copy(cp, t)
+			ends[k] = cp
+		}
+	}
+	for len(work) > 0 {
+		b := work[len(work)-1]
+		work = work[:len(work)-1]
+		s := in[b]
+		for _, n := range b.Nodes {
+			s = ga.transferNode(n, s)
+		}
+		if len(b.Succs) == 0 {
+			if k := g.exitKind(b); k == ExitReturn || k == ExitFall {
+				addEnd(endKey{b, true}, s)
+			}
+			continue
+		}
+		for k, nb := range b.Succs {
+			t := s
+			if al := ga.edgeAllowed(Edge{b, k}); al != nil {
+				t = bsIntersect(s, al)
+			}
+			if bsEmpty(t) {
+				continue
+			}
+			if nb == start || outside(nb) {
+				addEnd(endKey{b, false}, t)
+				continue
+			}
+			cur, ok := in[nb]
+			if !ok {
+				cp := make([]uint64, len(t))
+				copy(cp, t)
+				in[nb] = cp
+				work = append(work, nb)
+			} else if bsUnion(cur, t) {
+				work = append(work, nb)
+			}
+		}
+	}
+	var out []IterationEnd
+	for k, st := range ends {
+		out = append(out, IterationEnd{From: k.b, Break: k.br, OK: bsSubset(st, ga.holds)})
+	}
+	return out
+}
